@@ -1,6 +1,7 @@
 package props
 
 import (
+	"go/types"
 	"strings"
 
 	"verif/checker/internal/an"
@@ -128,7 +129,7 @@ func c09(c *Ctx) {
 		"both tables; the channel registered for a request is created for that request (not a shared one). Typed vector results are C13's rule R13.M."
 	r.NotDecided = []string{"all interleavings of callers and the receive loop", "orderings of containers / gzip-packed results", "'never twice' as a history property"}
 	r.Rule("R09.K", "key domains: Add under the request id; Get/Delete under an echoed request id (req_msg_id / bad_msg_id)", 5)
-	r.Rule("R09.D", "deliver then forget: the send to the waiter is followed on every path by Delete on both tables with the same key", 2)
+	r.Rule("R09.D", "deliver and forget: the result is handed over by a send that cannot be skipped, and every delivering path passes Delete on both tables with the same key", 4)
 	r.Rule("R09.C", "fresh channel: the channel registered for a request is a make(chan) of this call", 1)
 	tr := an.NewTracer()
 	n := map[string]int{}
@@ -184,23 +185,66 @@ func c09(c *Ctx) {
 
 	// ---- R09.D ----------------------------------------------------------------------------------
 	if w := c.fn("R09.D", load.RootMod, "*MTProto", "writeRPCResponse"); w != nil {
-		var send *ssa.Send
+		// the delivery: a plain send, or the send case of a select
+		var send ssa.Instruction
+		var sendChan, sendVal ssa.Value
+		blocking := true
 		for _, b := range w.Blocks {
 			for _, in := range b.Instrs {
-				if s, ok := in.(*ssa.Send); ok {
-					send = s
+				switch x := in.(type) {
+				case *ssa.Send:
+					send, sendChan, sendVal = x, x.Chan, x.X
+				case *ssa.Select:
+					for _, st := range x.States {
+						if st.Dir == types.SendOnly {
+							send, sendChan, sendVal = x, st.Chan, st.Send
+							blocking = x.Blocking
+						}
+					}
 				}
 			}
 		}
 		if send == nil {
-			r.Undecide("R09.D", "deliver", c.pos(w.Pos()), "no channel send in writeRPCResponse")
+			r.Violate("R09.D", "deliver:to-the-registered-channel", c.pos(w.Pos()), "writeRPCResponse no longer sends the result on a channel")
 		} else {
-			okSrc := strings.Contains(tr.OriginString(send.Chan), "SyncIntObjectChan).Get#0") && isParam(send.X, w, 2)
+			okSrc := strings.Contains(tr.OriginString(sendChan), "SyncIntObjectChan).Get#0") && isParam(sendVal, w, 2)
 			r.Check(okSrc, "R09.D", "deliver:to-the-registered-channel", c.pos(send.Pos()), "the result parameter is sent on the channel looked up under the key parameter")
+			if !blocking {
+				// a send that may be skipped is only a delivery when the channel can hold the value
+				buffered, known := false, false
+				if g := c.P.Func(load.RootMod, "*MTProto", "getRespChannel"); g != nil {
+					for _, b := range g.Blocks {
+						for _, in := range b.Instrs {
+							if mc, ok := in.(*ssa.MakeChan); ok {
+								known = true
+								if k, ok := an.ConstInt(mc.Size); !ok || k > 0 {
+									buffered = true
+								}
+							}
+						}
+					}
+				}
+				switch {
+				case !known:
+					r.Undecide("R09.D", "deliver:not-skippable", c.pos(send.Pos()), "the send is a select case with a default arm and the capacity of the waiter's channel could not be determined")
+				default:
+					r.Check(buffered, "R09.D", "deliver:not-skippable", c.pos(send.Pos()),
+						"the send is a select case with a default arm: on an unbuffered channel the result is dropped whenever the caller is not yet parked on the receive (the window between WriteMsg and <-resp)")
+				}
+			} else {
+				r.Hold("R09.D", "deliver:not-skippable", c.pos(send.Pos()), "blocking send")
+			}
 			for _, tbl := range []string{"SyncIntObjectChan", "SyncIntReflectTypes"} {
 				ok := false
 				for _, cs := range an.CallsNamed(w, "(*"+load.UtilsPkg+"."+tbl+").Delete") {
-					if isParam(cs.Common.Args[1], w, 1) && an.InstrDominates(send, cs.Instr) {
+					if !isParam(cs.Common.Args[1], w, 1) {
+						continue
+					}
+					if an.InstrDominates(cs.Instr, send) {
+						ok = true // forgotten before the hand-over: the entry cannot be found twice either
+						continue
+					}
+					if an.InstrDominates(send, cs.Instr) {
 						// every return reachable after the send is dominated by the delete
 						all := true
 						for _, b := range w.Blocks {
@@ -210,10 +254,12 @@ func c09(c *Ctx) {
 								}
 							}
 						}
-						ok = all
+						if all {
+							ok = true
+						}
 					}
 				}
-				r.Check(ok, "R09.D", "forget:"+tbl, c.pos(send.Pos()), "after the send every exit passes "+tbl+".Delete(msgID)")
+				r.Check(ok, "R09.D", "forget:"+tbl, c.pos(send.Pos()), "every path that delivers also passes "+tbl+".Delete(msgID)")
 			}
 		}
 	}
